@@ -14,14 +14,14 @@ import argparse, json, os, random, re, shutil, subprocess, sys, threading, time
 VERIF = os.path.dirname(os.path.dirname(os.path.abspath(__file__)))
 MAP = {
     "starlark/hashtable.go": ["C12", "C11", "C03", "C06", "C04"],
-    "starlark/interp.go": ["C01", "C06", "C07", "C08", "C16", "C09", "C04"],
-    "starlark/eval.go": ["C01", "C08", "C13", "C10", "C07", "C06", "C16", "C17", "C11", "C04"],
+    "starlark/interp.go": ["C01", "C06", "C07", "C08", "C16", "C09", "C04", "C03", "C05"],
+    "starlark/eval.go": ["C01", "C08", "C13", "C10", "C07", "C06", "C16", "C17", "C11", "C04", "C03", "C02"],
     "starlark/value.go": ["C11", "C13", "C15", "C10", "C12", "C06", "C04", "C03"],
     "starlark/library.go": ["C13", "C10", "C11", "C12", "C15", "C06", "C03", "C04", "C02"],
     "starlark/int.go": ["C10", "C11", "C15"],
     "starlark/int_posix64.go": ["C10", "C11"],
     "starlark/unpack.go": ["C08", "C13", "C02"],
-    "starlark/iter.go": ["C06", "C05"],
+    "starlark/iter.go": ["C06", "C05", "C12"],
     "internal/compile/compile.go": ["C01", "C16", "C17", "C09", "C08", "C06", "C07"],
     "internal/compile/serial.go": ["C17"],
     "resolve/resolve.go": ["C09", "C01", "C14", "C08", "C17"],
@@ -143,11 +143,11 @@ def main():
                             res["ran"] = []
                             checks = [c for c in a.checks.split(",") if c] or MAP[m["file"]]
                             for cid in checks:
-                                cmd = ["go", "test", "-tags", "verif", "-count=1", "-run", "^TestProp", "-timeout", "900s"]
+                                cmd = ["go", "test", "-tags", "verif", "-count=1", "-run", "^TestProp", "-timeout", "2400s"]
                                 if cid == "C05":
                                     cmd.append("-race")
                                 cmd.append("./" + cid.lower())
-                                rc, out = sh(cmd, hc + "/harness", 1000,
+                                rc, out = sh(cmd, hc + "/harness", 2500,
                                              dict(VERIF_ROOT=hc + "/root", VERIF_TIER="quick", VERIF_SEED="1", VERIF_SHRINKTIME="2s"))
                                 v = [l for l in out.splitlines() if l.startswith("VIOLATION")]
                                 if v:
